@@ -9,7 +9,7 @@ from concurrent.futures import ThreadPoolExecutor
 from . import session
 from .. import vlib as V
 
-FAMILIES = [("mix", 1.0), ("three", 0.6), ("delay", 0.3)]
+FAMILIES = [("mix", 1.0), ("three", 0.6), ("delay", 0.3), ("death3", 0.5), ("death", 0.3)]
 
 
 def canon_events(line):
@@ -51,11 +51,18 @@ def main(ctx):
         od = os.path.join(ctx.rundir, "rep")
         for fam, w in FAMILIES:
             session.gen_family(ctx, fam, max(1, int(n * w / 2)), ctx.seed + 17, od, V.NCPU)
+        # corpus scenarios (past order dependences) are repeated first
+        cdir = os.path.join(V.VERIF, "corpus", "C17")
+        if os.path.isdir(cdir):
+            for f in os.listdir(cdir):
+                if f.endswith(".scn"):
+                    import shutil
+                    shutil.copy(os.path.join(cdir, f), os.path.join(od, "corpus-" + f))
         scns = sorted(f for f in os.listdir(od) if f.endswith(".scn"))
 
         def rerun(f):
             texts = []
-            for k in range(3):
+            for k in range(4):
                 tr = os.path.join(od, f"{f[:-4]}.rep{k}.trace")
                 subprocess.run([os.path.join(V.BIN, "world"), "run", os.path.join(od, f), tr], capture_output=True, timeout=600)
                 texts.append(canon(open(tr).read()) if os.path.exists(tr) else None)
@@ -66,9 +73,9 @@ def main(ctx):
         with ThreadPoolExecutor(max_workers=V.NCPU) as ex:
             for f, texts in ex.map(rerun, scns):
                 reps["scenarios"] += 1
-                reps["runs"] += 3
+                reps["runs"] += 4
                 base = texts[0]
-                for k in (1, 2):
+                for k in (1, 2, 3):
                     if texts[k] != base:
                         reps["differences"] += 1
                         # first differing line
